@@ -266,6 +266,9 @@ func nasOptLengths(e refnas.TOpt) []int {
 	cands := []int{1, 2, 0, 3, 16, 255}
 	if e.Fmt == "TLV-E" {
 		cands = append(cands, 256, 1000)
+		if e.Cap == 0 {
+			cands = append(cands, 65533, 65534, 65535) // the top of a two-octet length indicator
+		}
 	}
 	var out []int
 	for _, n := range cands {
